@@ -11,7 +11,7 @@ PROP = dict(
     assumptions=[
         "theorems C04_*_partial hold under the syntactic guard `guard pol p`: no finally block contains a contract call (g2) and, "
         "for the code as it is, a catch block followed by a finally block makes no un-layered call (g1); outside the guards the "
-        "statements are refuted in Coq (W1, W2) and the same witnesses are replayed on the real chain (known findings F13, F14)",
+        "statements are refuted in Coq (W1, W2) and the same witnesses are replayed on the real chain (known findings F13, F40)",
         "gas accounting, witness checks, manifest permissions, NEO token, contract deployment inside a transaction are not part of the model",
     ],
     modelled="layering decision, unload callbacks, exception unwinding with the pending-exception register, notification truncation, "
@@ -26,7 +26,7 @@ META = dict(
          "machine with ideal transactional frames (storage, native setting, notifications, halt/fault), 'a failed call leaves no trace' and "
          "'before and after are kept' are proved under a syntactic guard (no contract call inside a finally block; for the code as it is also "
          "no un-layered call in a catch block that has a finally block) and refuted without it by two witnesses that are reproduced on the real "
-         "chain (known findings F13: callee effects visible to the finally block change HALT into FAULT; F14: effects of a call made from an "
+         "chain (known findings F13: callee effects visible to the finally block change HALT into FAULT; F40: effects of a call made from an "
          "exception-entered finally block are dropped). The model is tied to the Go code by running random and fault-injected call trees as "
          "real transactions (NeoVM interpreter contracts, TRY/THROW, call flags, GAS transfers with payment callbacks, Policy setter) on two "
          "replica chains and comparing with the model inside Coq, plus state-root equality with the block that carries a no-op twin instead of "
